@@ -8,12 +8,16 @@ for f in sorted(glob.glob(os.path.join(V, "seeded", "*", "meta.json"))):
     what = m.get("needs_to_manifest", "").strip().splitlines()
     what = (what[0] if what else "")[:110]
     ran = ", ".join("%s:%s" % (c, "VIOLATION" if (v["exit"] == 1 and v["violations"]) else ("inconclusive" if v["exit"] == 2 else "pass")) for c, v in m.get("checks", {}).items())
-    rows.append("| %s | %s | %s | %s | %s |" % (m["id"], m["breaks_property"], "yes" if m.get("confirmed") else "NO", ", ".join(m.get("detected_by", [])) or "— (missed)", ran))
+    fp = m.get("first_pass")
+    first = ""
+    if fp:
+        first = ", ".join("%s:%s" % (c, "VIOLATION" if (v["exit"] == 1 and v["violations"]) else ("inconclusive" if v["exit"] == 2 else "pass")) for c, v in (fp.get("checks") or {}).items())
+    rows.append("| %s | %s | %s | %s | %s | %s |" % (m["id"], m["breaks_property"], "yes" if m.get("confirmed") else "NO", ", ".join(m.get("detected_by", [])) or "— (missed)", ran, first))
 marker = "\n<!-- SEED-TABLE -->\n"
 p = os.path.join(V, "DESIGN.md")
 s = open(p).read()
 if marker in s:
     s = s[:s.index(marker)]
-s += marker + "\n| seeded change | breaks | confirmed (tests pass, demo fails/passes) | caught by (quick tier) | checks run |\n|---|---|---|---|---|\n" + "\n".join(rows) + "\n"
+s += marker + "\n| seeded change | breaks | confirmed (tests pass, demo fails/passes) | caught by (quick tier) | checks run (current) | first pass, before the checks were strengthened |\n|---|---|---|---|---|---|\n" + "\n".join(rows) + "\n"
 open(p, "w").write(s)
 print(len(rows), "rows")
